@@ -1080,3 +1080,223 @@ Example redemptions_example :
   = RedOk [2%N; 1%N]
   /\ Permutation (rev [(11%N, 1%N); (12%N, 2%N)]) [(11%N, 1%N); (12%N, 2%N)].
 Proof. split; [vm_compute; reflexivity|apply Permutation_sym, Permutation_rev]. Qed.
+
+(* ------------------------------------------------------------------ *)
+(* the production generator on one window                               *)
+(* ------------------------------------------------------------------ *)
+Definition pg_skipsP (c : pg_case) (a : N) : Prop :=
+  (a = 2%N /\ dep_spec_ok (with_dout (pg_dep c) (DepOk [])) = true) \/
+  (a = 3%N /\ red_spec_ok (with_rout (pg_red c) (RedOk [])) = true) \/
+  (a <> 1%N /\ a <> 2%N /\ a <> 3%N).
+Definition pg_decidesP (c : pg_case) (a : N) : Prop :=
+  (a = 2%N /\
+   ((exists l, pg_out c = PSweep l /\ l <> [] /\
+               dep_spec_ok (with_dout (pg_dep c) (DepOk l)) = true) \/
+    (pg_out c = PErr /\
+     exists o, (o = DepErrChain \/ o = DepErrNoRequest \/ o = DepErrWallet) /\
+               dep_spec_ok (with_dout (pg_dep c) o) = true))) \/
+  (a = 3%N /\
+   ((exists l, pg_out c = PRedeem l /\ l <> [] /\
+               red_spec_ok (with_rout (pg_red c) (RedOk l)) = true) \/
+    (pg_out c = PErr /\
+     exists o, (o = RedErrChain \/ o = RedErrWallet) /\
+               red_spec_ok (with_rout (pg_red c) o) = true))) \/
+  (a = 1%N /\
+   ((pg_out c = PHeartbeat /\ pg_hb_ok c = true) \/ (pg_out c = PErr /\ pg_hb_ok c = false))).
+
+Lemma nonempty_iff {A} (l : list A) : nonempty l = true <-> l <> [].
+Proof. destruct l; cbn; split; congruence. Qed.
+
+Lemma pg_skips_iff c a : pg_skips c a = true <-> pg_skipsP c a.
+Proof.
+  unfold pg_skips, pg_skipsP, dep_allows, red_allows.
+  destruct (N.eqb_spec a 2) as [E2|E2]; [subst; split; [intro H; left; auto|]|].
+  { intros [[_ H]|[[H _]|[_ [H _]]]]; [exact H|discriminate|congruence]. }
+  destruct (N.eqb_spec a 3) as [E3|E3]; [subst; split; [intro H; right; left; auto|]|].
+  { intros [[H _]|[[_ H]|[_ [_ H]]]]; [discriminate|exact H|congruence]. }
+  destruct (N.eqb_spec a 1) as [E1|E1]; cbn; split; intro H; try discriminate; auto.
+  - destruct H as [[H _]|[[H _]|[H _]]]; congruence.
+Qed.
+
+Lemma pg_decides_iff c a : pg_decides c a = true <-> pg_decidesP c a.
+Proof.
+  unfold pg_decides, pg_decidesP, dep_allows, red_allows.
+  destruct (N.eqb_spec a 2) as [E2|E2].
+  { subst. split.
+    - intro H. left. split; [reflexivity|].
+      destruct (pg_out c) as [l| | | | |] eqn:Eo; try discriminate.
+      + apply andb_true_iff in H. destruct H as [H1 H2]. left. exists l.
+        split; [reflexivity|]. split; [apply nonempty_iff; exact H1|exact H2].
+      + right. split; [reflexivity|].
+        apply orb_true_iff in H. destruct H as [H|H]; [apply orb_true_iff in H; destruct H as [H|H]|].
+        * exists DepErrChain. auto.
+        * exists DepErrNoRequest. auto.
+        * exists DepErrWallet. auto.
+    - intros [[_ H]|[[H _]|[H _]]]; try discriminate.
+      destruct H as [[l [Eo [Hn H]]]|[Eo [o [Ho H]]]]; rewrite Eo.
+      + apply andb_true_iff. split; [apply nonempty_iff; exact Hn|exact H].
+      + destruct Ho as [Ho|[Ho|Ho]]; subst o; rewrite H; rewrite ?orb_true_r; reflexivity. }
+  destruct (N.eqb_spec a 3) as [E3|E3].
+  { subst. split.
+    - intro H. right. left. split; [reflexivity|].
+      destruct (pg_out c) as [|l| | | |] eqn:Eo; try discriminate.
+      + apply andb_true_iff in H. destruct H as [H1 H2]. left. exists l.
+        split; [reflexivity|]. split; [apply nonempty_iff; exact H1|exact H2].
+      + right. split; [reflexivity|].
+        apply orb_true_iff in H. destruct H as [H|H].
+        * exists RedErrChain. auto.
+        * exists RedErrWallet. auto.
+    - intros [[H _]|[[_ H]|[H _]]]; try discriminate.
+      destruct H as [[l [Eo [Hn H]]]|[Eo [o [Ho H]]]]; rewrite Eo.
+      + apply andb_true_iff. split; [apply nonempty_iff; exact Hn|exact H].
+      + destruct Ho as [Ho|Ho]; subst o; rewrite H; rewrite ?orb_true_r; reflexivity. }
+  destruct (N.eqb_spec a 1) as [E1|E1].
+  { subst. split.
+    - intro H. right. right. split; [reflexivity|].
+      destruct (pg_out c); try discriminate.
+      + left. auto.
+      + right. split; [reflexivity|]. destruct (pg_hb_ok c); [discriminate|reflexivity].
+    - intros [[H _]|[[H _]|[_ H]]]; try discriminate.
+      destruct H as [[Eo H]|[Eo H]]; rewrite Eo, H; reflexivity. }
+  split; [discriminate|]. intros [[H _]|[[H _]|[H _]]]; congruence.
+Qed.
+
+Lemma pg_walk_iff c : forall cl,
+  pg_walk c cl = true <->
+  (pg_out c = PNoop /\ Forall (pg_skipsP c) cl) \/
+  exists pre a post, cl = pre ++ a :: post /\ Forall (pg_skipsP c) pre /\ pg_decidesP c a.
+Proof.
+  induction cl as [|a rest IH]; cbn [pg_walk].
+  - split.
+    + intro H. left. split; [destruct (pg_out c); try discriminate; reflexivity|constructor].
+    + intros [[Eo _]|[pre [a [post [E _]]]]]; [rewrite Eo; reflexivity|].
+      destruct pre; discriminate.
+  - rewrite orb_true_iff, andb_true_iff, pg_decides_iff, pg_skips_iff, IH. split.
+    + intros [Hd|[Hs [[Eo Hf]|[pre [b [post [E [Hf Hd]]]]]]]].
+      * right. exists [], a, rest. split; [reflexivity|]. split; [constructor|exact Hd].
+      * left. split; [exact Eo|constructor; assumption].
+      * right. exists (a :: pre), b, post. subst rest. split; [reflexivity|].
+        split; [constructor; assumption|exact Hd].
+    + intros [[Eo Hf]|[pre [b [post [E [Hf Hd]]]]]].
+      * inversion Hf; subst. right. split; [assumption|]. left. split; assumption.
+      * destruct pre as [|x pre]; cbn in E; inversion E; subst.
+        { left. exact Hd. }
+        inversion Hf; subst. right. split; [assumption|].
+        right. exists pre, b, post. split; [reflexivity|]. split; assumption.
+Qed.
+
+Theorem pg_spec_ok_iff c :
+  pg_spec_ok c = true <->
+  (pg_out c = PNoop /\ Forall (pg_skipsP c) (pg_checklist c)) \/
+  exists pre a post, pg_checklist c = pre ++ a :: post /\ Forall (pg_skipsP c) pre /\
+                     pg_decidesP c a.
+Proof. apply pg_walk_iff. Qed.
+
+(* a deposit sweep proposal returned by the generator carries exactly the first eligible
+   deposits of THAT window's chain state *)
+Theorem pg_sweep_content c l :
+  pg_wf c = true -> pg_spec_ok c = true -> pg_out c = PSweep l ->
+  l <> [] /\
+  exists ma evs, dc_min_age (pg_dep c) = Some ma /\ dc_events (pg_dep c) = Some evs /\
+    let sorted := dep_sorted (dc_wallet (pg_dep c)) evs in
+    l = map to_ref
+          (firstn (Z.to_nat (dep_cap (dc_max (pg_dep c)) sorted))
+             (filter_map (dep_eligible (dc_req (pg_dep c)) (dc_conf (pg_dep c))
+                            (dc_now (pg_dep c)) ma true true) sorted)).
+Proof.
+  intros Hwf H Eo. unfold pg_wf in Hwf.
+  apply andb_true_iff in Hwf. destruct Hwf as [Hwf _].
+  apply andb_true_iff in Hwf. destruct Hwf as [_ Hts].
+  apply pg_spec_ok_iff in H. destruct H as [[E _]|[pre [a [post [_ [_ Hd]]]]]]; [congruence|].
+  destruct Hd as [[_ Hd]|[[_ Hd]|[_ Hd]]].
+  - destruct Hd as [[l' [E [Hn Hs]]]|[E _]]; [|congruence].
+    rewrite Eo in E. inversion E; subst l'. split; [exact Hn|].
+    destruct (dep_spec_ok_sound' _ l Hs eq_refl) as [ma [evs [H1 [H2 H3]]]].
+    cbn [with_dout dc_min_age dc_events dc_wallet dc_max dc_now dc_to_sweep] in *.
+    exists ma, evs. split; [exact H1|]. split; [exact H2|].
+    cbn zeta in *. unfold dc_req, dc_conf in *.
+    cbn [with_dout dc_reqs dc_confs dc_to_sweep] in H3. rewrite Hts in H3. exact H3.
+  - destruct Hd as [[l' [E _]]|[E _]]; congruence.
+  - destruct Hd as [[E _]|[E _]]; congruence.
+Qed.
+
+(* ------------------------------------------------------------------ *)
+(* window histories on the long-lived objects: no memory                *)
+(* ------------------------------------------------------------------ *)
+Theorem history_no_memory n ws : history_st n ws = map explain ws.
+Proof.
+  revert n. induction ws as [|w t IH]; intro n; [reflexivity|].
+  cbn [history_st window_st map]. rewrite IH. reflexivity.
+Qed.
+
+Theorem history_past_future_irrelevant n before after w :
+  nth_error (history_st n (before ++ w :: after)) (length before) = Some (explain w).
+Proof.
+  rewrite history_no_memory, map_app. cbn [map].
+  rewrite nth_error_app2; rewrite map_length; [|apply Nat.le_refl].
+  rewrite Nat.sub_diag. reflexivity.
+Qed.
+
+Lemma agree_list_map ws : agree_list ws (map explain ws) = forallb agree_of ws.
+Proof. induction ws as [|w t IH]; [reflexivity|]. cbn. rewrite IH. reflexivity. Qed.
+
+Theorem hist_agree_iff ws : hist_agree ws = forallb agree_of ws.
+Proof. unfold hist_agree. rewrite history_no_memory. apply agree_list_map. Qed.
+
+Lemma forallb_nth {A} (f : A -> bool) (l : list A) :
+  forallb f l = true <-> forall i x, nth_error l i = Some x -> f x = true.
+Proof.
+  rewrite forallb_forall. split.
+  - intros H i x Hx. apply H. eapply nth_error_In; eassumption.
+  - intros H x Hx. apply In_nth_error in Hx. destruct Hx as [i Hi]. eapply H; eassumption.
+Qed.
+
+Theorem hist_spec_iff ws :
+  hist_spec ws = true <-> forall i w, nth_error ws i = Some w -> spec_of w = true.
+Proof. apply forallb_nth. Qed.
+
+(* a history is accepted iff every window, judged alone against its own state, is *)
+Theorem judge_hist_agree ws :
+  judge_any (CHist ws) = Agree <->
+  ws <> [] /\ forall i w, nth_error ws i = Some w -> judge w = Agree.
+Proof.
+  cbn [judge_any]. rewrite hist_agree_iff. unfold hist_spec, judge, decide. split.
+  - intro H. destruct (nonempty ws) eqn:En; [|discriminate]. cbn [andb] in H.
+    destruct (forallb wf_of ws) eqn:Ew; [|discriminate].
+    destruct (forallb spec_of ws) eqn:Es; [|discriminate].
+    destruct (forallb agree_of ws) eqn:Ea; [|discriminate].
+    split; [apply nonempty_iff; exact En|]. intros i w Hw.
+    rewrite (proj1 (forallb_nth _ _) Ew i w Hw), (proj1 (forallb_nth _ _) Es i w Hw),
+            (proj1 (forallb_nth _ _) Ea i w Hw). reflexivity.
+  - intros [Hn H]. apply nonempty_iff in Hn. rewrite Hn. cbn [andb].
+    assert (Hall : forall f, (forall w, judge w = Agree -> f w = true) -> forallb f ws = true).
+    { intros f Hf. apply forallb_nth. intros i w Hw. apply Hf. unfold judge, decide. eapply H; eassumption. }
+    rewrite (Hall wf_of), (Hall spec_of), (Hall agree_of); [reflexivity| | |];
+      intros w Hw; unfold judge, decide in Hw;
+      destruct (wf_of w); try discriminate; destruct (spec_of w); try discriminate;
+      destruct (agree_of w); try discriminate; reflexivity.
+Qed.
+
+(* every model history of deposit searches and generator calls satisfies the history property *)
+Theorem model_history_passes ws :
+  Forall (fun w => match w with
+                   | CDep c => dc_out c = model_deposits c
+                   | CGen c => gc_out c = fst (generate (gc_tasks c) (gc_checklist c))
+                   | _ => False
+                   end) ws ->
+  hist_spec ws = true.
+Proof.
+  intro H. unfold hist_spec. apply forallb_forall. intros w Hw.
+  rewrite Forall_forall in H. specialize (H w Hw).
+  destruct w as [c|c|c|c]; cbn [spec_of]; try contradiction.
+  - apply dep_model_passes; exact H.
+  - apply gen_spec_ok_iff; exact H.
+Qed.
+
+Example history_example :
+  let w1 := CGen {| gc_tasks := [ {| tk_action := 2; tk_out := TProp 7 |}; {| tk_action := 3; tk_out := TNone |} ];
+                    gc_checklist := [3; 2]%N; gc_out := GProp 7; gc_trace := [1; 0]%N |} in
+  let w2 := CGen {| gc_tasks := [ {| tk_action := 2; tk_out := TNone |}; {| tk_action := 3; tk_out := TProp 9 |} ];
+                    gc_checklist := [3; 2]%N; gc_out := GProp 9; gc_trace := [1]%N |} in
+  judge_any (CHist [w1; w2]) = Agree /\ judge_any (CHist [w1; w1; w2]) = Agree.
+Proof. vm_compute. split; reflexivity. Qed.
